@@ -11,7 +11,8 @@ META = {
         "(is_identifier_start/is_identifier_char) that write_string_literal's quoting decision uses, with true/false excluded on both sides; "
         "R2 the escape table of the printer (escape_text) is the inverse of the tokenizer's (unescape/is_escape), everything needs_escape tests for is "
         "escaped, and \\uXXXX is written and read with the same digit order; R3 the incremental decoders only ever advance the input by the length the "
-        "parser consumed and read_utf8 keeps an incomplete trailing character for the next chunk; R5 panic audit of the parser, decoder and literal modules."),
+        "parser consumed and read_utf8 keeps an incomplete trailing character for the next chunk; R5 panic audit of the parser, decoder and literal modules. R7 (shared with C16.R5) typed readers convert every kind of number the tokenizer may deliver."
+),
     "does_not_decide": "print/parse round trip and fixed point over all values; equality of incremental and one-shot parsing for all chunkings; termination",
 }
 
